@@ -37,6 +37,14 @@ theorem c11_facts_wf : ∀ uc fl, WF (genEnv uc fl) = true := by
   have : WF (genEnv uc fl) = WF (genEnv [] []) := rfl
   rw [this]; decide
 
+/-- **Facts obligation, shape part**: `Assign.glomit` wraps exactly the parent fetch in
+    `try … except PathAccessError` and re-raises unless `missing`; `Assign.__init__` accepts
+    exactly the final ops `[ . P`; `_apply_for_each` flattens `layers - 1` times, then iterates. -/
+theorem c11_facts_shape :
+    Generated.assignGlomitCatch = (["PathAccessError"], "reraise-unless-missing") ∧
+    Generated.finalOpsAllowed.lookup "Assign" = some "[.P" ∧
+    Generated.applyForEachShape = "flatten layers-1 then iterate" := by decide
+
 /-- **Same object**: whatever `assign` returns is the target it was given (identity — the same
     `Val`, i.e. the same address).  For *every* input: wildcards, S-rooted, any `missing`. -/
 theorem c11_same_object (env : MEnv) (sroot : Bool) (sref : Val) (missing : Missing) (h : Heap)
